@@ -789,7 +789,8 @@ Inductive op : Type :=
 | OTraceT (t label : Z) (m : tmode) (reset : bool)
 | OSubSetItem (k name pos v : Z)                  (* linker.submodels[k].name[pos] = v *)
 | OSubListAppend (k attr v : Z)
-| OSubStatus (k t st it : Z).
+| OSubStatus (k t st it : Z)
+| OPathAppend (p : path) (v : Z).                  (* <list reached from the object through p>.append(v), e.g. obj.trace[t].names *)
 
 Definition is_empty_trace (h : heap) (r : loc) (t : Z) : bool :=
   Nat.eqb (arr_len h r [V N_trace; t; A N_values]) 0.
@@ -862,6 +863,7 @@ Definition compile_op (K : consts) (h : heap) (r : loc) (o : op) : list action :
   | OSubSetItem k name pos v => [ASet [A N_submodels; k; V name] pos (SScalar v)]
   | OSubListAppend k attr v => [AAppend [A N_submodels; k; A attr] (SScalar v)]
   | OSubStatus k t st it => [ASet [A N_submodels; k; V N_status] t (SScalar st); ASet [A N_submodels; k; V N_iterations] t (SScalar it)]
+  | OPathAppend p v => [AAppend p (SScalar v)]
   end.
 
 (* ------------------------------------------------------------------ histories *)
